@@ -73,6 +73,24 @@ func c15Recursive(r *mon.Rng) *model.Schema {
 		target := fmt.Sprintf("@r%d", (i+1)%n)
 		s.Types = append(s.Types, &model.TypeDef{Name: self, Root: mk(self, target, r.Intn(3), r.Intn(4))})
 	}
+	// alias types: another name for a type of the cycle, used both inside the cycle and by a
+	// required sibling of the root
+	alias := ""
+	if r.Chance(1, 2) {
+		alias = "@alias"
+		target := fmt.Sprintf("@r%d", r.Intn(n))
+		s.Types = append(s.Types, &model.TypeDef{Name: alias, Root: model.Ref(target)})
+		for _, t := range s.Types {
+			if t.Root == nil || t.Root.Kind != model.KObject || !r.Bool() {
+				continue
+			}
+			t.Root.Props = append(t.Root.Props, model.P("via1", model.Ref(alias).With(model.RBool("optional", true))))
+			if r.Bool() {
+				t.Root.Props = append(t.Root.Props, model.P("via2", model.Ref(alias).With(model.RBool("optional", true))))
+			}
+			mon.Shuffle(r, t.Root.Props)
+		}
+	}
 	switch r.Intn(3) {
 	case 0:
 		s.Root = model.Ref("@r0")
@@ -80,6 +98,11 @@ func c15Recursive(r *mon.Rng) *model.Schema {
 		s.Root = model.Obj(model.P("x", model.Ref("@r0")), model.P("y", model.Ref("@r0").With(model.RBool("optional", true))))
 	default:
 		s.Root = model.Arr(model.Ref("@r0"), model.Int("1"))
+	}
+	if alias != "" && s.Root.Kind == model.KObject {
+		s.Root.Props = append(s.Root.Props, model.P("extra", model.Ref(alias)))
+	} else if alias != "" {
+		s.Root = model.Obj(model.P("tree", s.Root), model.P("extra", model.Ref(alias)))
 	}
 	return s
 }
